@@ -30,6 +30,13 @@ var verifTemplates = []verifTemplate{
 	{"whileret", "fn find(limit: int) -> int {\n  let i = 0;\n  while i < 5 {\n    if i == limit { return i * 10; }\n    i += 1;\n  }\n  return 0 - 1;\n}\nfn main() {\n  println(find(A));\n  println(find(2));\n}\n"},
 	{"recur", "fn fib(n: int) -> int { if n < 2 { return n; } return fib(n - 1) + fib(n - 2); }\nfn main() {\n  println(fib(6));\n  println(fib(3) + A);\n}\n"},
 	{"closure", "fn main() {\n  let k = A;\n  let f = fn(a: int) -> int { a + k };\n  println(f(1));\n}\n"},
+	{"member-read-is-a-copy", "fn main() {\n  let o = new { x: A, y: B };\n  let a = o.x;\n  o.x = 5;\n  println(a, o.x);\n  let b = o.y;\n  b += 1;\n  println(b, o.y);\n}\n"},
+	{"index-read-is-a-copy", "fn main() {\n  let l = [A, B];\n  let a = l[0];\n  l[0] = 9;\n  println(a, l[0]);\n  let b = l[1];\n  b += 1;\n  println(b, l[1]);\n}\n"},
+	{"argument-from-member-is-a-copy", "fn bump(n: int) -> int { n += 1; return n; }\nfn main() {\n  let o = new { x: A };\n  let l = [B];\n  println(bump(o.x), o.x, bump(l[0]), l[0]);\n}\n"},
+	{"loop-variable-is-a-copy", "fn main() {\n  let l = [A, B];\n  for x in l {\n    x += 1;\n    println(x);\n  }\n  println(l[0], l[1]);\n}\n"},
+	{"concat-shares-nothing", "fn main() {\n  let l1 = [A];\n  let l2 = [B];\n  l1.concat(l2);\n  l1[1] = 9;\n  println(l1.len(), l1[1], l2[0]);\n}\n"},
+	{"for-over-objects-sees-the-objects", "fn main() {\n  let objs = [new { v: A }, new { v: B }];\n  for o in objs {\n    o.v = 9;\n  }\n  println(objs[0].v, objs[1].v);\n  let m = [[A], [B, C]];\n  for row in m {\n    row.push(0);\n  }\n  println(m[0].len(), m[1].len());\n}\n"},
+	{"spawn-handle-join", "fn work(n: int) -> int { return n + 1; }\nfn main() {\n  let h = spawn work(A);\n  println(h.join());\n}\n"},
 	{"lambda-nested", "fn main() {\n  let make = fn(n: int) -> int {\n    let inner = fn(x: int) -> int { x * 2 };\n    inner(n) + 1\n  };\n  println(make(A));\n  let third = fn(n: int) -> int { n - 3 };\n  println(third(B), make(B));\n}\n"},
 	{"lambda-in-lambda-argument", "fn apply(f: fn(x: int) -> int, v: int) -> int { return f(v); }\nfn main() {\n  println(apply(fn(x: int) -> int { apply(fn(x: int) -> int { x + 1 }, x) + 100 }, A));\n  println(apply(fn(x: int) -> int { let g = fn(b: int) -> int { fn(c: int) -> int { c * 3 }(b) - 1 }; g(x) }, B));\n}\n"},
 	{"lambda", "fn main() {\n  let f = fn(a: int, b: int) -> int { a * 2 - b };\n  println(f(A, B));\n}\n"},
